@@ -33,7 +33,7 @@ func wrapLIA(x string, w int, signed bool) string {
 var wrapInQuant func() bool
 
 func wrap1(x string, w int, signed bool) string {
-	if wrapInQuant != nil && wrapInQuant() && len(x) > 60 {
+	if len(x) > 60 {
 		sg := "u"
 		if signed {
 			sg = "s"
@@ -134,6 +134,14 @@ func (c *Ctx) liaBinop(op token.Token, w int, signed bool, x, y string, yT types
 			}
 		}
 		p := sx("*", x, y)
+		if len(p) > 60 {
+			// a preamble function keeps the text linear in the depth of the expression
+			sg := "u"
+			if signed {
+				sg = "s"
+			}
+			return sx(fmt.Sprintf("wrapm_%s%d", sg, w), p), ""
+		}
 		lo2, hi2 := intRange(w, signed)
 		return sx("ite", and(sx("<=", intLit(lo2), p), sx("<=", p, intLit(hi2))), p, wrapLIA(p, w, signed)), ""
 	case token.QUO:
